@@ -59,7 +59,19 @@ def fmtAcct (h : List UInt8) (a : Account) : String :=
 def fmtTx (h : List UInt8) (tx : Tx) : String :=
   s!"in={fmtList (fmtOp h) (tx.inputs.map (·.prev))}|out={fmtOuts tx.outputs}|lock={tx.lockTime}"
 
-def fmtRefusal (r : Refusal) : String := (reprStr r).replace "Pool.C07.Refusal." ""
+/-- refusal classes as far as the Go side can tell them apart without reading error texts: btcd rule errors by
+their error code, collaborator faults by the call that failed, everything else `refused` -/
+def fmtRefusal : Refusal → String
+  | .noInputs => "noInputs"
+  | .noOutputs => "noOutputs"
+  | .duplicateInputs => "duplicateInputs"
+  | .negativeOutput | .outputTooLarge | .totalTooLarge => "badOutputValue"
+  | .auctioneerFail => "auctioneerFail"
+  | .storeFail => "storeFail"
+  | .publishFail => "publishFail"
+  | .termsFail => "termsFail"
+  | .fundFail => "fundFail"
+  | _ => "refused"
 
 def fmtEffect (h : List UInt8) : Effect → String
   | .auctioneerModify ins outs m =>
